@@ -13,6 +13,22 @@ import (
 )
 
 func init() {
+	replayers["C11/redactable-operands"] = func(c *Ctx, raw json.RawMessage) string {
+		var cs struct {
+			R     []byte
+			Bytes bool
+			Ctx   int
+		}
+		json.Unmarshal(raw, &cs)
+		var val interface{} = redact.RedactableString(cs.R)
+		if cs.Bytes {
+			val = redact.RedactableBytes(cs.R)
+		}
+		if pv, pan := recoverTo(func() { c11RedCtx[cs.Ctx].Run(val) }); pan {
+			return fmt.Sprintf("%s with r = %T(%q) panics: %v", c11RedCtx[cs.Ctx].Name, val, cs.R, pv)
+		}
+		return ""
+	}
 	replayers["C11/after-propagated-panic"] = func(c *Ctx, raw json.RawMessage) string {
 		var cs struct{ Propagator, Probe int }
 		if json.Unmarshal(raw, &cs) != nil {
@@ -139,7 +155,7 @@ func c11Byte(b byte, kind, impl, pre int) string {
 
 // --- format strings ---------------------------------------------------------
 
-var fmtTokens = []string{"%", "v", "d", "s", "x", "w", "+", "-", "#", " ", "0", "1", "5", ".", "*", "[1]", "[2]", "[9]", "[", "]", "a", mStart, "\n", "\xe2", "1000001", "99999999999999999999", "[99999999999999999999]"}
+var fmtTokens = []string{"%", "v", "d", "s", "x", "w", "+", "-", "#", " ", "0", "1", "5", ".", "*", "[1]", "[2]", "[9]", "[", "]", "a", mStart, "\n", "\xe2", "\xc3", "1000001", "99999999999999999999", "[99999999999999999999]"}
 
 var c11ArgLists = [][]interface{}{
 	{},
@@ -468,6 +484,69 @@ type c11Trio struct {
 
 // c11AfterPanic: an operand in which one element's method panics must print, around the
 // report, exactly what it prints when that element is well-behaved.
+var c11RedCtx = []struct {
+	Name string
+	Run  func(r interface{})
+}{
+	{"Sprint(r)", func(r interface{}) { redact.Sprint(r) }},
+	{"Sprint(r, \"ab\")", func(r interface{}) { redact.Sprint(r, "ab") }},
+	{"Sprint(r, \"\")", func(r interface{}) { redact.Sprint(r, "") }},
+	{"Sprintf(%s%d rest, r, 7)", func(r interface{}) { redact.Sprintf("%s%d rest", r, 7) }},
+	{"Sprintf(%v%v, r, Safe(s))", func(r interface{}) { redact.Sprintf("%v%v", r, redact.Safe("s")) }},
+	{"Sprintf(%d|%v, 1, r)", func(r interface{}) { redact.Sprintf("%d|%v", 1, r) }},
+	{"Sprintf(%v, []interface{}{r, \"x\", r})", func(r interface{}) { redact.Sprintf("%v", []interface{}{r, "x", r}) }},
+	{"Sprintf(%v %v, r, panicking Stringer)", func(r interface{}) { redact.Sprintf("%v %v", r, panStrT{"boom"}) }},
+	{"Sprintf(%v, Unsafe(r)) / Safe(r)", func(r interface{}) { redact.Sprintf("%v|%v", redact.Unsafe(r), redact.Safe(r)) }},
+	{"StringBuilder: Print(r), UnsafeRune, SafeString, RedactableString", func(r interface{}) {
+		var b redact.StringBuilder
+		b.Print(r)
+		b.UnsafeRune('z')
+		b.SafeString("s")
+		_ = b.RedactableString()
+	}},
+	{"StringBuilder: UnsafeString, Print(r), UnsafeByte, Len, Print(r), String", func(r interface{}) {
+		var b redact.StringBuilder
+		b.UnsafeString("u")
+		b.Print(r)
+		b.UnsafeByte('b')
+		_ = b.Len()
+		b.Print(r)
+		_ = b.String()
+	}},
+	{"ManualBuffer: raw write of r, unsafe WriteByte, finalize", func(r interface{}) {
+		var b buffer.Buffer
+		b.SetMode(buffer.SafeRaw)
+		switch x := r.(type) {
+		case redact.RedactableString:
+			b.WriteString(string(x))
+		case redact.RedactableBytes:
+			b.Write(x)
+		}
+		b.SetMode(buffer.UnsafeEscaped)
+		b.WriteByte('q')
+		b.SetMode(buffer.SafeEscaped)
+		_ = b.TakeRedactableString()
+	}},
+	{"Join/JoinTo with r as element and as delimiter", func(r interface{}) {
+		if s, ok := r.(redact.RedactableString); ok {
+			redact.Join(s, []redact.RedactableString{s, "x", s})
+			var b redact.StringBuilder
+			redact.JoinTo(&b, s, []interface{}{"u", s, 1})
+		}
+	}},
+	{"r.Redact(), r.StripMarkers(), HelperForErrorf(%w %v, err, r)", func(r interface{}) {
+		switch x := r.(type) {
+		case redact.RedactableString:
+			x.Redact()
+			x.StripMarkers()
+		case redact.RedactableBytes:
+			x.Redact()
+			x.StripMarkers()
+		}
+		redact.HelperForErrorf("%w %v", errT{"e"}, r)
+	}},
+}
+
 type c11Probe struct {
 	name string
 	run  func() string
@@ -785,6 +864,30 @@ func checkC11(c *Ctx) {
 			w.Fail("after-panic", map[string]interface{}{"Verb": afterVerbs[vi], "Method": m, "Shape": sh}, d)
 		}
 		w.Seen(uint64(i))
+	})
+	// (i) operands that CLAIM to be redactable but are not well-formed (a lone end marker, an unclosed envelope,
+	// truncated markers): the library copies them verbatim and must survive whatever that leaves in its buffer
+	rtoks := []string{"a", mStart, mEnd, "\n", "\xe2", "\xe2\x80", mRed}
+	rmax := 3
+	if !c.Quick() {
+		rmax = 4
+	}
+	re := NewStrEnum(rtoks, rmax)
+	c.Section("C11/redactable-operands", map[string]interface{}{"tokens": rtoks, "max_tokens": rmax, "forms": "RedactableString, RedactableBytes", "contexts": len(c11RedCtx)}, re.Total, func(i int, w *Worker) {
+		r := string(re.Get(i, nil))
+		for ci := range c11RedCtx {
+			for _, asBytes := range []bool{false, true} {
+				w.Eval()
+				var val interface{} = redact.RedactableString(r)
+				if asBytes {
+					val = redact.RedactableBytes(r)
+				}
+				if pv, pan := recoverTo(func() { c11RedCtx[ci].Run(val) }); pan {
+					w.Fail("redactable-operand", map[string]interface{}{"R": []byte(r), "Bytes": asBytes, "Ctx": ci}, fmt.Sprintf("%s with r = %T(%q) panics: %v", c11RedCtx[ci].Name, val, r, pv))
+				}
+			}
+		}
+		w.SeenS(r)
 	})
 	// (h) AFTER a call that let a panic propagate (the one case the property allows: a panic whose own report
 	// panics), later calls contain ordinary method panics as before. One worker: the later call must be able to
